@@ -6,7 +6,11 @@ stdin : {"cases": [case, ...], "timeout": seconds per case}
           "ambient": [[[x, priority], ...], ...]   (optional: other PriorityQueue objects alive during the run),
           "container": "list|tuple|float|int|fortran|view"  (form in which the points are handed to the constructor),
           "mutate": "reverse|shift|row"  (optional, ndarray containers: after construction the caller overwrites its array
-                     and builds a second tree from it; the queries then go to the FIRST tree)}
+                     and builds a second tree from it; the queries then go to the FIRST tree),
+          "scale_exp": s   (all coordinates, query points and radii are multiplied by 2^s; observations are divided again),
+          "call": "pos|kw|default", "strategy_spelling": e.g. "Balanced", "numrep": "py|np64|np32" (k, max_leaf_size, r),
+          "qform": "array|list|tuple|intarray", "repeat": bool (every query issued again, interleaved, after the caller
+          appended to the first answers), "bad_call_first": bool (failing calls are made and caught before the queries)}
   Coordinates of the points are integers. Query points are given DOUBLED (Q = 2q, so q has half-integer
   coordinates) and the radius of a radius query is r = sqrt(m)/2, i.e. m = (2r)^2.
 stdout: '@@JSON ' + {"obs": [obs, ...]}
@@ -27,6 +31,11 @@ import signal
 import sys
 
 
+# per-case time limit in CPU time of this process (a hanging build burns CPU; a starved process on a loaded machine does not)
+TIMER = signal.ITIMER_VIRTUAL
+TIMER_SIG = signal.SIGVTALRM
+
+
 class CaseTimeout(Exception):
     pass
 
@@ -35,17 +44,21 @@ def _alarm(signum, frame):
     raise CaseTimeout()
 
 
+SCALE = [1.0]      # the current case's coordinate scale 2^s (set by run_case)
+
+
 def dbl(x):
-    """2*x as an exact int, or +-inf markers; raises if not a half-integer."""
+    """2*x/scale as an exact int, +-inf markers, or "F:num/den" when it is not an integer (exact rational)."""
     x = float(x)
     if x == math.inf:
         return "inf"
     if x == -math.inf:
         return "-inf"
-    y = 2 * x
-    if y != int(y):
-        raise ValueError("value %r is not a half-integer" % x)
-    return int(y)
+    if x != x:
+        return "nan"
+    from fractions import Fraction
+    y = 2 * Fraction(x) / Fraction(SCALE[0])
+    return int(y) if y.denominator == 1 else "F:%d/%d" % (y.numerator, y.denominator)
 
 
 def plain(x):
@@ -86,11 +99,27 @@ def run_case(case, timeout):
     cont = case.get("container") or ("int" if case.get("dtype", "float") == "int" else "float")
     if n == 0 and cont in ("list", "tuple"):
         cont = "float"          # an empty list has no (N,d) shape
-    base = np.array(case["pts"], dtype=float).reshape(n, d)
+    # coordinates are the case's integers times 2^scale_exp (exact in binary64): magnitudes 1e-300 .. 1e300
+    sc = 2.0 ** case.get("scale_exp", 0)
+    SCALE[0] = sc
+    if sc != 1.0 and cont == "int":
+        cont = "float"
+    base = np.array(case["pts"], dtype=float).reshape(n, d) * sc
+    form = case.get("call", "pos")             # how arguments are passed: pos / kw / default (omitted when equal to the default)
+    rep = case.get("numrep", "py")             # numeric representation of k, max_leaf_size, r: py / np64 / np32
+
+    def num(v, isfloat=False):
+        if rep == "np64":
+            return np.float64(v) if isfloat else np.int64(v)
+        if rep == "np32":
+            if isfloat:
+                return np.float32(v) if float(np.float32(v)) == float(v) else float(v)
+            return np.int32(v)
+        return float(v) if isfloat else int(v)
     if cont == "list":
-        P = [[float(c) for c in p] for p in case["pts"]]
+        P = [[float(c) * sc for c in p] for p in case["pts"]]
     elif cont == "tuple":
-        P = tuple(tuple(float(c) for c in p) for p in case["pts"])
+        P = tuple(tuple(float(c) * sc for c in p) for p in case["pts"])
     elif cont == "int":
         P = np.array(case["pts"], dtype=int).reshape(n, d)
     elif cont == "fortran":
@@ -104,17 +133,29 @@ def run_case(case, timeout):
     is_arr = isinstance(P, np.ndarray)
     before = P.copy() if is_arr else None
     np.random.seed(case["seed"])
-    signal.signal(signal.SIGALRM, _alarm)
-    signal.setitimer(signal.ITIMER_REAL, timeout)
+    signal.signal(TIMER_SIG, _alarm)
+    signal.setitimer(TIMER, timeout)
     try:
-        tree = Rec(P, max_leaf_size=case["mls"], strategy=case["strategy"])
+        strat = case.get("strategy_spelling") or case["strategy"]
+        mls_arg = num(case["mls"])
+        if form == "kw":
+            tree = Rec(points=P, max_leaf_size=mls_arg, strategy=strat)
+        elif form == "default":
+            kwargs = {}
+            if case["mls"] != 10:
+                kwargs["max_leaf_size"] = mls_arg
+            if strat != "fast":
+                kwargs["strategy"] = strat
+            tree = Rec(P, **kwargs)
+        else:
+            tree = Rec(P, mls_arg, strat)
     except CaseTimeout:
         return {"status": "timeout", "where": "build", "pivots_so_far": len(rec)}
     except Exception as ex:  # noqa
-        signal.setitimer(signal.ITIMER_REAL, 0)
+        signal.setitimer(TIMER, 0)
         return {"status": "error", "msg": "build: %s: %s" % (type(ex).__name__, ex)}
     finally:
-        signal.setitimer(signal.ITIMER_REAL, 0)
+        signal.setitimer(TIMER, 0)
     try:
         nodes = []
         for nd in tree.nodes:
@@ -135,10 +176,10 @@ def run_case(case, timeout):
         if mut == "reverse":
             P[:] = P[::-1].copy()
         elif mut == "shift":
-            P += 7
+            P += 7 * (1 if cont == "int" else sc)
         elif mut == "row":
-            P[0] = P[-1] + 5
-        signal.setitimer(signal.ITIMER_REAL, timeout)
+            P[0] = P[-1] + 5 * (1 if cont == "int" else sc)
+        signal.setitimer(TIMER, timeout)
         try:
             KDTree(P, max_leaf_size=case["mls"], strategy=case["strategy"])
         except CaseTimeout:
@@ -146,7 +187,7 @@ def run_case(case, timeout):
         except Exception as ex:  # noqa
             out["second_tree"] = "%s: %s" % (type(ex).__name__, ex)
         finally:
-            signal.setitimer(signal.ITIMER_REAL, 0)
+            signal.setitimer(TIMER, 0)
         before = P.copy()
     # what the caller's container holds while the queries run (doubled integers)
     try:
@@ -155,7 +196,7 @@ def run_case(case, timeout):
         return {"status": "error", "msg": "caller's array: %s: %s" % (type(ex).__name__, ex)}
 
     def guarded(f):
-        signal.setitimer(signal.ITIMER_REAL, timeout)
+        signal.setitimer(TIMER, timeout)
         try:
             r = f()
             return [int(i) for i in r]
@@ -164,15 +205,82 @@ def run_case(case, timeout):
         except Exception as ex:  # noqa
             return ["error", "%s: %s" % (type(ex).__name__, ex)]
         finally:
-            signal.setitimer(signal.ITIMER_REAL, 0)
+            signal.setitimer(TIMER, 0)
 
-    for Q, k in case.get("knn", []):
-        q = np.array(Q, dtype=float) / 2.0
-        out["knn"].append(guarded(lambda: tree.query(q, k)))
-    for Q, m in case.get("rad", []):
-        q = np.array(Q, dtype=float) / 2.0
-        r = math.sqrt(m) / 2.0
-        out["rad"].append(guarded(lambda: tree.query_radius(q, r)))
+    def qpoint(Q, j):
+        a = np.array(Q, dtype=float) / 2.0 * sc
+        kind = case.get("qform", "array")
+        if kind == "list":
+            return [float(x) for x in a]
+        if kind == "tuple":
+            return tuple(float(x) for x in a)
+        if kind == "intarray" and sc == 1.0 and all(x % 2 == 0 for x in Q):
+            return np.array([x // 2 for x in Q], dtype=int)
+        return a
+
+    if case.get("bad_call_first"):
+        # calls that legitimately fail (query point of the wrong dimension, unknown strategy) are caught; the tree is used afterwards
+        for f in (lambda: tree.query(np.zeros(d + 1), 1), lambda: tree.query_radius(np.zeros(d + 1), 1.0),
+                  lambda: KDTree(P, strategy="no-such-strategy")):
+            signal.setitimer(TIMER, timeout)
+            try:
+                f()
+            except CaseTimeout:
+                pass
+            except Exception:  # noqa
+                pass
+            finally:
+                signal.setitimer(TIMER, 0)
+
+    qmod = []
+
+    def do_knn(Q, k, j):
+        q = qpoint(Q, j)
+        q0 = np.array(q, dtype=float).copy()
+        kk = num(k)
+        if form == "kw":
+            f = lambda: tree.query(pt=q, k=kk)
+        elif form == "default" and k == 1:
+            f = lambda: tree.query(q)
+        else:
+            f = lambda: tree.query(q, kk)
+        r = guarded(f)
+        if not np.array_equal(np.array(q, dtype=float), q0):
+            qmod.append("query")
+        return r
+
+    def do_rad(Q, m, j):
+        q = qpoint(Q, j)
+        q0 = np.array(q, dtype=float).copy()
+        rr = num(math.sqrt(m) / 2.0 * sc, isfloat=True)
+        f = (lambda: tree.query_radius(pt=q, r=rr)) if form == "kw" else (lambda: tree.query_radius(q, rr))
+        r = guarded(f)
+        if not np.array_equal(np.array(q, dtype=float), q0):
+            qmod.append("query_radius")
+        return r
+
+    for j, (Q, k) in enumerate(case.get("knn", [])):
+        out["knn"].append(do_knn(Q, k, j))
+    for j, (Q, m) in enumerate(case.get("rad", [])):
+        out["rad"].append(do_rad(Q, m, j))
+    # the same calls again, interleaved, after the first answers were tampered with by the caller: same answers
+    rep_bad = None
+    if case.get("repeat"):
+        first_k = [list(a) for a in out["knn"]]
+        first_r = [list(a) for a in out["rad"]]
+        for j in range(max(len(first_k), len(first_r))):
+            if j < len(first_r):
+                a = do_rad(case["rad"][j][0], case["rad"][j][1], j)
+                if a != first_r[j] and rep_bad is None:
+                    rep_bad = "query_radius #%d answered %s, then %s" % (j, first_r[j], a)
+                a.append(-1)
+            if j < len(first_k):
+                a = do_knn(case["knn"][j][0], case["knn"][j][1], j)
+                if a != first_k[j] and rep_bad is None:
+                    rep_bad = "query #%d answered %s, then %s" % (j, first_k[j], a)
+                a.append(-1)
+    out["repeat_mismatch"] = rep_bad
+    out["query_point_modified_by"] = sorted(set(qmod))
     out["input_modified_by_query"] = bool(is_arr and not np.array_equal(P, before))
     try:
         out["ambient_after"] = [sorted([[plain(it.x), float(it.priority)] for it in pq.data], key=repr) for pq in ambient]
@@ -199,7 +307,7 @@ def main():
         except Exception as ex:  # noqa
             o = {"status": "error", "msg": "driver: %s: %s" % (type(ex).__name__, ex)}
         finally:
-            signal.setitimer(signal.ITIMER_REAL, 0)
+            signal.setitimer(TIMER, 0)
         if o["status"] == "timeout":
             n_to += 1
         obs.append(o)
